@@ -1,1 +1,1 @@
-/-! finite checkers evaluated by native_decide (see Check/*.lean) -/
+import Check.Grey
